@@ -154,6 +154,8 @@ theorem subFlags_bits (a b : BitVec 8) (c : Bool) :
   simp only [e] at h
   exact h
 
+theorem eq_of_sub_eq_zero8 (a x : BitVec 8) (e : a - x = 0#8) : a = x := by bv_decide
+
 theorem beq_zero_eq_decide {n : Nat} (r : BitVec n) : (r == 0) = decide (r = 0) := by
   by_cases h : r = 0
   · subst h; simp
